@@ -102,7 +102,7 @@ def _helper_cases(rng: Rng, tier):
             yield dict(kind="helper", sub="diag", A=np.diag(p).tolist(), sel=sel, spectrum=list(p))
         # the same spectrum through a rotation: same reported values expected (perm_invariant)
     # (b) structured random
-    N = 400 if big else 70
+    N = 1500 if big else 90
     for k in range(N):
         n = rng.choice([1, 2, 2, 3, 3, 4, 5, 6, 8, 12]) if (k % 7) else rng.randint(13, 40 if big else 25)
         sub = rng.choice(["orth", "orth", "gram", "diag", "tied_orth"])
@@ -159,7 +159,7 @@ def _sim_fourier(seed, n_obs, m, n_fun, noise):
 
 
 def _ufpca_cases(rng: Rng, tier):
-    N = 260 if tier == "thorough" else 36
+    N = 600 if tier == "thorough" else 40
     for k in range(N):
         method = ["covariance", "inner-product"][k % 2]
         normalize = (k // 2) % 2 == 1
@@ -187,7 +187,7 @@ def _ufpca_cases(rng: Rng, tier):
 
 
 def _mfpca_cases(rng: Rng, tier):
-    N = 40 if tier == "thorough" else 6
+    N = 80 if tier == "thorough" else 6
     for k in range(N):
         n = rng.randint(5, 12)
         comps = []
@@ -222,8 +222,11 @@ def witness_cases():
         dict(kind="helper", sub="witness", A=WITNESS_A, sel=["all"], spectrum=[1.0, 3.0, 2.0]),
         dict(kind="helper", sub="witness", A=WITNESS_A, sel=["int", 1], spectrum=[1.0, 3.0, 2.0]),
         dict(kind="helper", sub="witness", A=WITNESS_A, sel=["frac", "3/5"], spectrum=[1.0, 3.0, 2.0]),
+        # seeded Fourier simulations: n_components=2 keeps a non-leading component (clause `leading`)
         dict(kind="ufpca", method="covariance", normalize=False, sel=["int", 2], dk="fourier-sim",
-             sim=dict(seed=7, n_obs=20, m=15, n_fun=5, noise=0)),
+             sim=dict(seed=24, n_obs=20, m=15, n_fun=5, noise=0)),
+        dict(kind="ufpca", method="inner-product", normalize=False, sel=["int", 2], dk="fourier-sim",
+             sim=dict(seed=21, n_obs=20, m=15, n_fun=5, noise=0)),
     ]
 
 
